@@ -7,7 +7,9 @@ CHECK = {'level': 'exploration',
          'around runtime.GC and goroutine hops); a history is distinct & non-trivial when it contains an accepted attempt and a must-reject attempt made '
          'with a formerly valid or prefix/suffix-related credential, keyed by its op/expectation sequence. sched: one case per executed schedule of the '
          'storage steps (distinct fingerprints); race: one case per concurrent one-time race with >= 2 overlapping presentations / per cache round; '
-         'rest: one case per HTTP history (24 requests, default bcrypt cost), same non-triviality rule.',
+         'rest: one case per HTTP history (24 requests, default bcrypt cost), same non-triviality rule. One-time sessions are also presented while '
+         'the storage Delete that consumes them is made to fail (injected error / key-not-found) on the auth calls and on the public-privilege REST '
+         'routes; sched also interleaves a password change with the login-triggered rehash of a user whose hash has another bcrypt cost than configured.',
  'parts': [{'name': 'histories', 'pkg': 'auth', 'run': '^TestVerif_C12_Histories$', 'timeout_q': 400, 'timeout_t': 2400},
            {'name': 'sched', 'pkg': 'auth', 'run': '^TestVerif_C12_Sched$', 'timeout_q': 400, 'timeout_t': 1800},
            {'name': 'race', 'pkg': 'auth', 'race': True, 'run': '^TestVerif_C12_Race$', 'timeout_q': 500, 'timeout_t': 2400},
@@ -20,7 +22,10 @@ CHECK = {'level': 'exploration',
                   'histories.password_changes': 103, 'histories.user_deletes': 51,
                   'histories.expired_otherwise_live': 96, 'histories.expiry_refresh_presentations': 1,
                   'sched.onetime_schedules': 52, 'sched.onetime_exactly_one': 43,
-                  'sched.logout_vs_refresh_schedules': 3, 'sched.pwchange_vs_cookie_schedules': 6,
+                  'sched.logout_vs_refresh_schedules': 1, 'sched.pwchange_vs_cookie_schedules': 6,
+                  'sched.rehash_vs_pwchange_schedules': 20, 'sched.rehash_lost_cas_to_password_change': 4, 'sched.rehash_acknowledged_password_changes_judged': 10,
+                  'histories.live_one_time_presented_with_failing_delete': 8, 'histories.result_pairs_checked': 265,
+                  'rest.one_time_presented_with_failing_delete': 10, 'rest.session_deletes_failed_by_injection': 10,
                   'race.presentations': 366, 'race.races_with_overlap': 44, 'race.races_exactly_one': 67,
                   'race.cache_attempts_password': 480, 'race.cache_accepted_password': 195,
                   'rest.attempts_password': 42, 'rest.attempts_session': 30, 'rest.accepted_password': 16, 'rest.accepted_session': 5,
@@ -37,6 +42,9 @@ CHECK = {'level': 'exploration',
                  'passwords that differ as strings but expand to the same 72-byte bcrypt key (p vs p+NUL+p, or equal first 72 bytes) are judged as '
                  'different passwords, under their own signature',
                  'JWT / OIDC authentication and guest access are not part of this check',
+                 'sched scenario 4 variant setter-at-old-cost (the racing password change is written by an Authenticator still configured with the old '
+                 'bcrypt cost, i.e. nodes with different bcrypt_cost settings) restores the old password on the unchanged tree; it is counted '
+                 '(mixed_cost_old_password_restored_not_deciding) and decided only with VERIF_C12_MIXED_COST=decide',
                  'self-test aid: with VERIF_C12_KNOWN=notes in the environment the signatures observed on the unchanged tree (disabled user keeps '
                  'session authentication, logout undone by a concurrent refresh, rosmar delete-of-deleted-key, bcrypt key equivalence) are counted as '
                  'notes instead of violations so that a mutant run is decided by what the mutant adds; the default reports everything']}
